@@ -35,9 +35,10 @@ fn content_text(path: &str, c: &ModContent) -> String {
     let mut s = String::new();
     for (k, b) in c.backends.iter().enumerate() {
         match b {
-            0 => s.push_str(&format!("backend rust prologue r#\"\n    pub const PROLOGUE_{tag}_{k}: u32 = {k};\n\"#;\n")),
-            1 => s.push_str(&format!("backend rust epilogue r#\"\n    pub const EPILOGUE_{tag}_{k}: u32 = {k};\n\"#;\n")),
-            2 => s.push_str(&format!("backend rust {{\n    prologue r#\"\n        pub const PROLOGUE_{tag}_{k}: u32 = {k};\n    \"#;\n    epilogue r#\"\n        pub const EPILOGUE_{tag}_{k}: u32 = {k};\n    \"#;\n}}\n")),
+            // every block ends in a line comment: the next block must still start on its own line
+            0 => s.push_str(&format!("backend rust prologue r#\"\n    pub const PROLOGUE_{tag}_{k}: u32 = {k}; // end of prologue {k}\n\"#;\n")),
+            1 => s.push_str(&format!("backend rust epilogue r#\"\n    pub const EPILOGUE_{tag}_{k}: u32 = {k}; // end of epilogue {k}\n\"#;\n")),
+            2 => s.push_str(&format!("backend rust {{\n    prologue r#\"\n        pub const PROLOGUE_{tag}_{k}: u32 = {k}; // end\n    \"#;\n    epilogue r#\"\n        pub const EPILOGUE_{tag}_{k}: u32 = {k}; // end\n    \"#;\n}}\n")),
             _ => s.push_str(&format!("backend cpp prologue r#\"\n    #include <cpp_only_{tag}_{k}.h>\n    struct CppOnly{k} {{}};\n\"#;\n")),
         }
     }
@@ -70,6 +71,10 @@ fn collision_text(kind: &str) -> String {
         "two_extern_values_same_name" => "#[address(0x1000)]\npub extern g: u32;\n#[address(0x2000)]\npub extern g: u64;\n".into(),
         "type_and_extern_type_same_name" => "#[size(4), align(4)]\nextern type A;\npub type A {\n    pub x: u32,\n}\n".into(),
         "two_extern_types_same_name" => "#[size(4), align(4)]\nextern type A;\n#[size(8), align(8)]\nextern type A;\n".into(),
+        "two_extern_values_same_name_not_adjacent" => "#[address(0x1000)]\npub extern g: u32;\n#[address(0x1800)]\npub extern h: u32;\n#[address(0x2000)]\npub extern g: u64;\n".into(),
+        "two_types_same_name_not_adjacent" => "pub type A {\n    pub x: u32,\n}\npub type B {\n    pub x: u32,\n}\npub enum C: u8 {\n    P,\n}\npub type A {\n    pub y: u64,\n}\n".into(),
+        "two_extern_types_same_name_not_adjacent" => "#[size(4), align(4)]\nextern type A;\n#[size(4), align(4)]\nextern type B;\n#[size(8), align(8)]\nextern type A;\n".into(),
+        "type_and_later_enum_same_name" => "pub enum A: u8 {\n    P,\n}\npub type B {\n    pub x: u32,\n}\npub type A {\n    pub x: u32,\n}\n".into(),
         _ => unreachable!(),
     }
 }
@@ -84,6 +89,10 @@ const COLLISIONS: &[&str] = &[
     "two_extern_values_same_name",
     "type_and_extern_type_same_name",
     "two_extern_types_same_name",
+    "two_extern_values_same_name_not_adjacent",
+    "two_types_same_name_not_adjacent",
+    "two_extern_types_same_name_not_adjacent",
+    "type_and_later_enum_same_name",
 ];
 
 fn backend_seqs(maxlen: usize) -> Vec<Vec<usize>> {
